@@ -137,3 +137,36 @@ def run(chk):
         return "%s %s w=%s h=%s %s" % (e[0], ",".join(clauses), tr["w"], tr["h"], e[1:4])
 
     chk.validate("GeometryTrace", "GeometryTrace.cfg", traces, key_of=key_of, batch=2500)
+
+
+def selftest(chk):
+    """Binding demonstration: corrupted, dropped and swapped fields must be rejected."""
+    good = [["tlen", [0, 0, 0], [2, 1, 0], 2], ["tvec", [0, 0, 0], [2, 1, 0], [1, 0, -1]],
+            ["ldf", [1, 0, -1], [0, 0], 3, 3, [[0, 1, 0], [1, 2, 1]]],
+            ["hex", 1, 0, 0, [[0, 0], [0, -1], [1, 0], [1, 1], [0, 1], [-1, 0], [-1, -1]]],
+            ["link", 1, 1, 1, 4, 1]]
+    cases = [
+        (dict(w=3, h=3, ev=good), None),
+        (dict(w=3, h=3, ev=[["tlen", [0, 0, 0], [2, 1, 0], 1]]), "LenIsDist"),          # corrupted result
+        (dict(w=3, h=3, ev=[["tvec", [0, 0, 0], [2, 1, 0], [2, 1, 0]]]), "VectorMinimal"),  # lands, too long
+        (dict(w=3, h=3, ev=[["tvec", [0, 0, 0], [2, 1, 0], [0, 1, 0]]]), "VectorLands"),
+        (dict(w=3, h=3, ev=[["ldf", [1, 0, -1], [0, 0], 3, 3, [[1, 2, 1], [0, 1, 0]]]]), "PathLabels"),  # swapped
+        (dict(w=3, h=3, ev=[["ldf", [1, 0, -1], [0, 0], 3, 3, [[0, 1, 0]]]]), "PathLength"),          # dropped
+        (dict(w=3, h=3, ev=[["hex", 1, 0, 0, [[0, 0], [0, -1], [1, 0], [1, 1], [0, 1], [-1, 0]]]]), "RingsComplete"),
+        (dict(w=3, h=3, ev=[["hex", 1, 0, 0, [[0, -1], [0, 0], [1, 0], [1, 1], [0, 1], [-1, 0], [-1, -1]]]]),
+         "RingsNearestFirst"),
+        (dict(w=3, h=3, ev=[["link", 1, 1, 1, 3, 1]]), "LinkOpposite"),
+    ]
+    rej = chk.validate("GeometryTrace", "GeometryTrace.cfg", [c[0] for c in cases])
+    got = {id(t): cl for t, _, cl in rej}
+    msgs = []
+    ok = True
+    for tr, want in cases:
+        cl = got.get(id(tr))
+        if want is None and cl is not None:
+            ok = False
+            msgs.append("good trace rejected: %s" % cl)
+        if want is not None and (cl is None or want not in cl):
+            ok = False
+            msgs.append("expected %s, got %s" % (want, cl))
+    return ok, "; ".join(msgs) or "%d corrupted traces rejected with the expected clauses" % (len(cases) - 1)
